@@ -254,12 +254,14 @@ package wire
 //@ define canonPath(path string) = (strings.LastIndex(path, "vendor/") != 0 - 1 && (strings.LastIndex(path, "vendor/") == 0 || str_at(path, strings.LastIndex(path, "vendor/") - 1) == 47)) ? substr(path, strings.LastIndex(path, "vendor/") + 7, len(path)) : path
 //@ func (*gen).qualifyImport
 //@   modifies mapof(g.imports)
+//@   requires [C15] name == pkgNameOf(path)
 //@   ensures [C16] path != g.pkg.PkgPath ==> has(g.imports, canonPath(path)) && result == g.imports[canonPath(path)].name
 //@   ensures [C16] forall k string :: old(has(g.imports, k)) ==> has(g.imports, k) && g.imports[k] == old(g.imports[k])
 //@   ensures [C16] forall k string :: has(g.imports, k) && !old(has(g.imports, k)) ==> k == canonPath(path)
 //@   ensures [C16] path == g.pkg.PkgPath ==> result == ""
 //@ func (*gen).qualifiedID
 //@   modifies mapof(g.imports)
+//@   requires [C15] pkgName == pkgNameOf(pkgPath)
 //@ func (*gen).qualifyPkg
 //@   modifies mapof(g.imports)
 //@ func (*gen).nameInFileScope
@@ -268,10 +270,10 @@ package wire
 //@ define freeIn(ig *injectorGen, name string) = name != ig.errVar && (forall j :: 0 <= j && j < len(ig.paramNames) ==> ig.paramNames[j] != name) && (forall j :: 0 <= j && j < len(ig.localNames) ==> ig.localNames[j] != name) && (forall j :: 0 <= j && j < len(ig.cleanupNames) ==> ig.cleanupNames[j] != name)
 //@ func (*injectorGen).nameInInjector
 //@   modifies nothing
-//@   ensures [C04,C14] !result ==> freeIn(ig, name)
-//@   loop 1 invariant [C04,C14] forall j :: 0 <= j && j < done ==> ig.paramNames[j] != name
-//@   loop 2 invariant [C04,C14] forall j :: 0 <= j && j < done ==> ig.localNames[j] != name
-//@   loop 3 invariant [C04,C14] forall j :: 0 <= j && j < done ==> ig.cleanupNames[j] != name
+//@   ensures [C03,C04,C14] !result ==> freeIn(ig, name)
+//@   loop 1 invariant [C03,C04,C14] forall j :: 0 <= j && j < done ==> ig.paramNames[j] != name
+//@   loop 2 invariant [C03,C04,C14] forall j :: 0 <= j && j < done ==> ig.localNames[j] != name
+//@   loop 3 invariant [C03,C04,C14] forall j :: 0 <= j && j < done ==> ig.cleanupNames[j] != name
 //@ func disambiguate
 //@   modifies nothing
 //@   ensures [C04,C14] !collides(result)
@@ -357,6 +359,7 @@ package wire
 //@   loop 1 invariant [C12] !ig.discard ==> evfmt(OUTEV[&ig.g.buf][old(OUTLEN[&ig.g.buf]) + 2 + ((c.out is *types.Pointer) ? 1 : 0)]) == "%s{\n"
 //@   loop 1 invariant [C12] !ig.discard ==> forall k :: 0 <= k && k < done ==> OUTEV[&ig.g.buf][pos3(old(OUTLEN[&ig.g.buf]) + 3 + ((c.out is *types.Pointer) ? 1 : 0), k)] == ev("\t\t%s: ", c.fieldNames[k]) && OUTEV[&ig.g.buf][pos3(old(OUTLEN[&ig.g.buf]) + 4 + ((c.out is *types.Pointer) ? 1 : 0), k)] == ev("%s", slotName(ig, c.args[k])) && OUTEV[&ig.g.buf][pos3(old(OUTLEN[&ig.g.buf]) + 5 + ((c.out is *types.Pointer) ? 1 : 0), k)] == ev(",\n")
 //@ func (*injectorGen).valueExpr
+//@   ensures [C02,C13] !ig.discard ==> OUTEV[&ig.g.buf][old(OUTLEN[&ig.g.buf])] == ev("\t%s := %s\n", lname, has(ig.g.values, c.valueExpr) ? ig.g.values[c.valueExpr] : "")
 //@   ensures [C01] OUTLEN[&ig.g.buf] >= old(OUTLEN[&ig.g.buf]) && forall k :: k < old(OUTLEN[&ig.g.buf]) ==> OUTEV[&ig.g.buf][k] == old(OUTEV[&ig.g.buf][k])
 //@   modifies OUTLEN[&ig.g.buf], OUTEV[&ig.g.buf]
 //@   ensures ig.discard ==> OUTLEN[&ig.g.buf] == old(OUTLEN[&ig.g.buf])
